@@ -2,7 +2,7 @@
    Statements only: each theorem is closed by [exact], pinned by [Check] and
    followed by [Print Assumptions]. *)
 From Coq Require Import List NArith Bool.
-From RB Require Import Base.Val Base.Bytes Model.Bfd Spec.WireSpec Proofs.Bfd.
+From RB Require Import Base.Val Base.Bytes Model.Bfd Model.Stream Model.Rtr Spec.WireSpec Proofs.Bfd Proofs.Rtr.
 Import ListNotations.
 Open Scope N_scope.
 
@@ -21,3 +21,33 @@ Proof. exact C03_bfd_accepts_iff_wellformed. Qed.
 Check bfd_accepts_iff_wellformed :
   forall buf : list N, (exists m, bfd_decode buf = BfdOk m) <-> bfd_wellformed buf.
 Print Assumptions bfd_accepts_iff_wellformed.
+
+(* RTR: RtrCodec::decode (as repaired by f773db1) panics on no buffer content. *)
+Theorem rtr_decode_no_panic : never_panics rtr_decode.
+Proof. exact C03_rtr_decode_no_panic. Qed.
+Check rtr_decode_no_panic : never_panics rtr_decode.
+Print Assumptions rtr_decode_no_panic.
+
+(* RTR: a returned PDU took a non-empty prefix of the buffer (tokio Decoder contract: Some => bytes consumed), so the Framed loop cannot spin. *)
+Theorem rtr_decode_progress : consumes_input rtr_decode.
+Proof. exact C03_rtr_decode_consumes. Qed.
+Check rtr_decode_progress : consumes_input rtr_decode.
+Print Assumptions rtr_decode_progress.
+
+(* RTR: once the bytes announced by the length field are buffered the answer is a PDU or an error, never "need more" (no stall on unknown types, short PDUs or length < 8). *)
+Theorem rtr_complete_frame_decided : complete_frame_decided rtr_decode rtr_complete.
+Proof. exact C03_rtr_complete_frame_decided. Qed.
+Check rtr_complete_frame_decided : complete_frame_decided rtr_decode rtr_complete.
+Print Assumptions rtr_complete_frame_decided.
+
+(* RTR: more bytes are requested only while the frame is incomplete. *)
+Theorem rtr_need_only_if_incomplete : need_only_if_incomplete rtr_decode rtr_complete.
+Proof. exact C03_rtr_need_only_if_incomplete. Qed.
+Check rtr_need_only_if_incomplete : need_only_if_incomplete rtr_decode rtr_complete.
+Print Assumptions rtr_need_only_if_incomplete.
+
+(* RTR: any two fragmentations of the same byte stream deliver the same PDUs and the same final error, with no spin and within the driver bound. *)
+Theorem rtr_fragmentation_invariant : fragmentation_invariant rtr_decode.
+Proof. exact C03_rtr_fragmentation_invariant. Qed.
+Check rtr_fragmentation_invariant : fragmentation_invariant rtr_decode.
+Print Assumptions rtr_fragmentation_invariant.
